@@ -21,11 +21,15 @@
 (*                                                                            *)
 (* Plan(kind, inst)       what the algorithm returns (stable sort by the key,  *)
 (*                        first fit strategies x pools on a virtual cluster)  *)
+(* CodedPlan(kind, inst)  the same with LSF's strategy-less virtual place_task *)
 (* NoInversion(k, i, a)   the property statement, with a fit check that does   *)
 (*                        not use the virtual cluster of Plan                 *)
+(* SameAsPlan, OrderKey, Feasible: stricter than / beside the statement        *)
+(* (reported as spec.resync notes by the harness, never as a violation).      *)
 (* The module is used in two ways: EnumInit enumerates every instance of the  *)
-(* bound given by the constants (theorem: Plan has no inversion), RecInit     *)
-(* walks over call records [id, kind, inst, ans, ...] made on the real code.  *)
+(* bound given by the constants (Theorem: Plan has no inversion; CodedIsPlan), *)
+(* RecInit walks over call records [id, kind, inst, ans, ...] made on the     *)
+(* real schedulers (RecChecked prints every failing clause of every record).  *)
 EXTENDS Integers, Sequences, FiniteSets, TLC, LedgerOps
 
 CONSTANTS Kinds,        \* subset of {"EDF", "FIFO", "LSF"}
@@ -39,11 +43,16 @@ CONSTANTS Kinds,        \* subset of {"EDF", "FIFO", "LSF"}
           NRecords      \* Len(Records)
 
 \* A state is the *code* of an instance (shape index per task, index of the pool
-\* sequence) or the index of a call record; the instance itself is looked up in
-\* the invariants.  (TLC re-evaluates configuration constants at every reference
-\* while it computes initial states, so Init only mentions small ones.)
+\* sequence) or the index of a call record; the instance / record itself is looked
+\* up in the invariants, so the initial predicates only mention small constants.
 VARIABLES idx, kind, sel, pix
 vars == <<idx, kind, sel, pix>>
+
+\* TLC evaluates a definition without parameters once, but a constant that the
+\* configuration substitutes at every reference: the big ones are used through these.
+TheShapes   == Shapes
+ThePoolSeqs == PoolSeqs
+TheRecords  == Records
 
 -----------------------------------------------------------------------------
 (* resource vectors *)
@@ -115,6 +124,10 @@ Key(k, I, t) ==
 
 \* the keys of all tasks, as a tuple (the operators below take it as `K`)
 Keys(k, I) == Tup([t \in TaskIds(I) |-> Key(k, I, t)])
+\* The *priority* of the property statement: earliest deadline / earliest release /
+\* least slack.  EDF's secondary sort key (the graph name) is a tie-break of the
+\* algorithm, not a priority: tasks with equal deadlines have equal priority.
+Prios(k, I) == Tup([t \in TaskIds(I) |-> <<Key(k, I, t)[1], 0>>])
 
 KLess(a, b) == a[1] < b[1] \/ (a[1] = b[1] /\ a[2] < b[2])
 \* u is at least as urgent as t
@@ -219,11 +232,12 @@ InvertedK(K, I, a, t) ==
                      Packs(I.pools[p].av, S,
                            [u \in S |-> IF u = t THEN Dem(I, t, s) ELSE Dem(I, u, a.place[u].strat)])
 
-Inverted(k, I, a, t) == InvertedK(Keys(k, I), I, a, t)
+Inverted(k, I, a, t) == InvertedK(Prios(k, I), I, a, t)
 
-NoInversion(k, I, a) == LET K == Keys(k, I) IN \A t \in TaskIds(I) : ~InvertedK(K, I, a, t)
+NoInversion(k, I, a) == LET K == Prios(k, I) IN \A t \in TaskIds(I) : ~InvertedK(K, I, a, t)
 
-\* Placements are appended in the order the tasks are considered
+\* Placements are appended in the order the tasks are considered: the returned
+\* sequence is sorted by the full sort key (stricter than the statement)
 OrderKey(k, I, a) ==
     LET K == Keys(k, I)
     IN  \A i, j \in 1..Len(a.order) : i < j => ~KLess(K[a.order[j]], K[a.order[i]])
@@ -235,8 +249,8 @@ SameAsPlan(k, I, a) == LET P == Plan(k, I) IN a.place = P.place /\ a.order = P.o
 GraphGrouped(gs) ==
     \A i, j, k \in 1..Len(gs) : (i < j /\ j < k /\ gs[i] = gs[k]) => gs[j] = gs[i]
 
-ShapeSet == {Shapes[i] : i \in 1..Len(Shapes)}
-PoolSeqSet == {PoolSeqs[i] : i \in 1..Len(PoolSeqs)}
+ShapeSet == {TheShapes[i] : i \in 1..Len(TheShapes)}
+PoolSeqSet == {ThePoolSeqs[i] : i \in 1..Len(ThePoolSeqs)}
 
 \* Instances = {I : InBound(I)}
 InBound(I) ==
@@ -247,12 +261,12 @@ InBound(I) ==
     /\ I.pools \in PoolSeqSet
 
 InstanceOf(s, p) ==
-    [now |-> Now, tasks |-> Tup([t \in 1..Len(s) |-> Shapes[s[t]]]), pools |-> PoolSeqs[p]]
+    [now |-> Now, tasks |-> Tup([t \in 1..Len(s) |-> TheShapes[s[t]]]), pools |-> ThePoolSeqs[p]]
 
 \* the small constants describe the big ones, and codes are injective
 BoundOK ==
-    /\ NShapes = Len(Shapes) /\ NPools = Len(PoolSeqs) /\ NRecords = Len(Records)
-    /\ GraphOf = Tup([i \in 1..NShapes |-> Shapes[i].graph])
+    /\ NShapes = Len(TheShapes) /\ NPools = Len(ThePoolSeqs) /\ NRecords = Len(TheRecords)
+    /\ GraphOf = Tup([i \in 1..NShapes |-> TheShapes[i].graph])
     /\ Cardinality(ShapeSet) = NShapes /\ Cardinality(PoolSeqSet) = NPools
     /\ FirstIx \subseteq 1..NShapes
 
@@ -264,11 +278,12 @@ NStats == 9
 Stats(k, I, a) ==
     LET T == TaskIds(I)
         K == Keys(k, I)
+        Q == Prios(k, I)
         ord == OrderOf(K)
     IN  /\ Bump(1, TRUE)
         /\ Bump(2, \E t \in T : ~a.place[t].placed)
         \* looks like an inversion, is justified by the fit check
-        /\ Bump(3, \E t, u \in T : ~a.place[t].placed /\ a.place[u].placed /\ KLess(K[t], K[u]))
+        /\ Bump(3, \E t, u \in T : ~a.place[t].placed /\ a.place[u].placed /\ KLess(Q[t], Q[u]))
         /\ Bump(4, \E t, u \in T : t # u /\ K[t] = K[u])
         /\ Bump(5, \E t \in T : ord[t] # t)
         /\ Bump(6, \E t \in T : a.place[t].placed /\ a.place[t].strat > 1)
@@ -341,14 +356,14 @@ Expected(c, r) ==
       [] c = "C13.order_key"    -> [key |-> Keys(r.kind, r.inst)]
       [] c = "C13.no_inversion" ->
             [inverted |-> {t \in TaskIds(r.inst) : Inverted(r.kind, r.inst, r.ans, t)},
-             key |-> Keys(r.kind, r.inst),
+             prio |-> [t \in TaskIds(r.inst) |-> Prios(r.kind, r.inst)[t][1]],
              plan |-> Plan(r.kind, r.inst)]
       [] OTHER -> <<>>
 
 \* every failing clause of every record is printed ("@@ id clause expected");
 \* the invariant itself always holds, so all records are looked at
 RecChecked ==
-    LET r  == Records[idx]
+    LET r  == TheRecords[idx]
         wf == Holds("harness.wf", r)
         F  == IF wf THEN {c \in Clauses : ~Holds(c, r)} ELSE {"harness.wf"}
     IN  /\ \A c \in F : PrintT("@@ " \o ToString(r.id) \o " " \o c \o " " \o ToString(Expected(c, r)))
